@@ -19,11 +19,12 @@ namespace VP
 
 /-- numpy dtypes that can occur on a backend result. `longlong`/`ulonglong` are the platform alias
     classes (`np.dtype('longlong').type is not np.int64`, but its `.name` is `int64`);
+    `object` is an object array all of whose elements are `str`, `objmixed` any other object array;
     `other` stands for every dtype that is no ONNX tensor element type (datetime64, bytes, void,
     longdouble ...). -/
 inductive DT
   | bool | i8 | i16 | i32 | i64 | u8 | u16 | u32 | u64 | f16 | f32 | f64 | c64 | c128 | str
-  | object | longlong | ulonglong | other
+  | object | objmixed | longlong | ulonglong | other
 deriving DecidableEq, Repr
 
 /-- `np.dtype(dtype.name)` on a numeric dtype (`PropValue.__post_init__`): aliases collapse. -/
@@ -34,7 +35,7 @@ def DT.norm : DT → DT
 
 /-- `np.issubdtype(dtype, np.number)`. -/
 def DT.isNumber : DT → Bool
-  | .bool | .str | .object | .other => false
+  | .bool | .str | .object | .objmixed | .other => false
   | _ => true
 
 inductive Dim | const (n : Nat) | unk
@@ -137,7 +138,8 @@ def Exc.isException : Exc → Bool
 structure Variant where
   /-- result conversions run under a `try` that gives up on propagation (fix 4a0f72b) -/
   convGuarded : Bool
-  /-- `check` looks inside Sequence / Optional values (fix 8cf8b4c) -/
+  /-- `check` looks inside Sequence / Optional values (fix 8cf8b4c) and into object arrays standing
+      for strings (fix ccb5773, same flag) -/
   checkRecursive : Bool
   /-- `_Inline.propagate_values` honours the `NONE` backend (fix 5a207b8) -/
   inlineNoneGuard : Bool
@@ -148,8 +150,12 @@ def Variant.pinned : Variant := ⟨false, false, false⟩
 
 /-! ## `PropValue.check` -/
 
-/-- `value.dtype.type is type.dtype.type`, or the object/str special case. -/
+/-- `value.dtype.type is type.dtype.type`, or the object/str special case (fixed: only object
+    arrays that hold strings, fix ccb5773). -/
 def dtMatch (v e : DT) : Bool := (v == .object && e == .str) || v == e
+
+/-- The pinned special case: *any* object array passes for a string tensor. -/
+def dtMatchLoose (v e : DT) : Bool := ((v == .object || v == .objmixed) && e == .str) || v == e
 
 /-- The fixed `check`, as a function of the declared type and the payload (recursion on the type). -/
 def checkRec : Ty → Payload → Bool
@@ -163,7 +169,7 @@ def checkRec : Ty → Payload → Bool
 
 /-- The pinned `check`: containers are only looked at one level deep. -/
 def checkShallow : Ty → Payload → Bool
-  | .tensor e s, .arr dt sh _ => shapeLe sh s && dtMatch dt e
+  | .tensor e s, .arr dt sh _ => shapeLe sh s && dtMatchLoose dt e
   | .tensor _ _, _ => false
   | .seq t, .list xs => xs.all fun x => x.type.sub t
   | .seq _, _ => false
@@ -185,7 +191,7 @@ def unwrap1 : RefVal → RefVal
 def leafRef (typ : Ty) : RefVal → Except Exc PropValue
   | .arr dt sh pid => .ok (PropValue.new typ (.arr dt sh pid))
   | .scalar dt pid => .ok (PropValue.new typ (.arr dt [] pid))
-  | .opaque pid => .ok (PropValue.new typ (.arr .object [] pid))
+  | .opaque pid => .ok (PropValue.new typ (.arr .objmixed [] pid))
   | .ragged => .error .valueError
   | .none => .ok (PropValue.new typ .none)
   | .list _ => .error .typeError        -- `typ.unwrap_sequence()` on a non-Sequence type
@@ -208,7 +214,8 @@ def fromRef : Ty → RefVal → Except Exc PropValue
 
 /-- `from_ort_value` on a value that is neither `None` nor a list. -/
 def leafOrt (typ : Ty) : RefVal → Except Exc PropValue
-  | .arr dt sh pid => .ok (PropValue.new typ (.arr (if dt == .object then .str else dt) sh pid))
+  | .arr dt sh pid =>
+    .ok (PropValue.new typ (.arr (if dt == .object || dt == .objmixed then .str else dt) sh pid))
   | .none => .ok (PropValue.new typ .none)
   | _ => .error .typeError              -- "No handler for ORT value"
 
